@@ -68,7 +68,7 @@ func run(r *mon.Run) {
 	}
 	n := 1500
 	if r.Thorough {
-		n = 30000
+		n = 150000
 	}
 	quiet := log.New(io.Discard, "", 0)
 	sharedSigners := map[*gen.Identity]*signedexchange.Signer{}
@@ -119,6 +119,14 @@ func run(r *mon.Run) {
 				}
 				if g.Chance(1, 10) {
 					name = name + strings.Repeat("n", mon.Pick(g, []int{13, 14, 230, 250}))
+				}
+				if g.Chance(1, 4) {
+					// every character a field name may contain (RFC 7230 tchar), upper-case letters next to the specials
+					const tchar = "!#$%&'*+-.^_`|~0123456789AZaz"
+					name += "." // (keeps the names of different indices apart)
+					for n := 1 + g.Intn(6); n > 0; n-- {
+						name += string(tchar[g.Intn(len(tchar))])
+					}
 				}
 				vl := mon.Pick(g, valLens)
 				if i%211 == 5 && k == 0 {
